@@ -371,7 +371,81 @@ func c10r4(c *Ctx) {
 		}
 	})
 	c.Check("selected-policy replacements found", fn.Pos(), n >= 3, "fewer replacement sites than the three levels")
-	c.Floor(4)
+	// every applicable policy is a candidate at its level whatever it says: inside the selection loop no condition
+	// depends on the policy's mTLS content (mode, port-level modes). The content is consulted after the selection - an
+	// UNSET policy that is the oldest at its level still wins the level and inherits from the wider one.
+	nLoop := 0
+	for _, l := range rangeLoops(fn) {
+		if l.Over != ssa.Value(cfgs) || l.Body == nil {
+			continue
+		}
+		nLoop++
+		readsContent := func(v ssa.Value) (bool, string) {
+			seen := map[ssa.Value]bool{}
+			var walk func(v ssa.Value, d int) (bool, string)
+			walk = func(v ssa.Value, d int) (bool, string) {
+				if v == nil || seen[v] || d > 10 {
+					return false, ""
+				}
+				seen[v] = true
+				if fv := fieldOfLoad(v); fv != nil {
+					if fv.Name() == "Mtls" || fv.Name() == "PortLevelMtls" {
+						return true, fv.Name()
+					}
+				}
+				switch x := v.(type) {
+				case *ssa.UnOp:
+					return walk(x.X, d+1)
+				case *ssa.FieldAddr:
+					if n := fieldVar(x.X.Type(), x.Field).Name(); n == "Mtls" || n == "PortLevelMtls" {
+						return true, n
+					}
+					return walk(x.X, d+1)
+				case *ssa.BinOp:
+					if ok, n := walk(x.X, d+1); ok {
+						return ok, n
+					}
+					return walk(x.Y, d+1)
+				case *ssa.Call:
+					if o := calleeObj(x); o != nil && (o.Name() == "GetMtls" || o.Name() == "GetPortLevelMtls") {
+						return true, o.Name()
+					}
+					for _, a := range x.Call.Args {
+						if ok, n := walk(a, d+1); ok {
+							return ok, n
+						}
+					}
+				case *ssa.Phi:
+					if !l.Body.Dominates(x.Block()) {
+						return false, ""
+					}
+					for _, e := range x.Edges {
+						if ok, n := walk(e, d+1); ok {
+							return ok, n
+						}
+					}
+				}
+				return false, ""
+			}
+			return walk(v, 0)
+		}
+		bad := false
+		for _, iff := range allIfs(fn) {
+			if !l.Body.Dominates(iff.Block()) {
+				continue
+			}
+			if r, what := readsContent(iff.Cond); r {
+				bad = true
+				c.Check("selection among the applicable policies does not look at their mTLS content", iff.Pos(), false,
+					"inside the loop that selects the mesh / namespace / workload PeerAuthentication a condition depends on the policy's "+what+": which policy wins a level then depends on what it says, not only on its age - an UNSET (or otherwise 'empty') policy that is the oldest at its level no longer wins it, and a newer policy of the same level decides the mode instead of the next wider level")
+			}
+		}
+		if !bad {
+			c.Check("selection among the applicable policies does not look at their mTLS content", fn.Pos(), true, "")
+		}
+	}
+	c.Check("selection loop over the applicable policies found", fn.Pos(), nLoop == 1, fmt.Sprintf("%d range loops over configs", nLoop))
+	c.Floor(6)
 }
 
 
